@@ -266,11 +266,7 @@ class TypedNode(Node):
         if isinstance(child, self._tree.__class__):
             if deep is None:
                 deep = True
-            topnodes = child._root.children
-            if isinstance(before, (int, TypedNode)) or before is True:
-                topnodes.reverse()
-            for n in topnodes:
-                self.add_child(n, before=before, deep=deep)
+            self._add_nodes(child._root.children, before=before, deep=deep)
             return
 
         # Validate arguments before the new node is created and registered
